@@ -386,6 +386,9 @@ func tryReplay(run *checkRun, o *Obligation, base string) string {
 	last := ""
 	for _, bound := range []uint64{16, 64, 4200, 70000} {
 		r := tryReplayBound(run, o, base, bound)
+		if strings.Contains(r, "no length terms") {
+			return strings.Replace(r, " (no length terms)", "", 1)
+		}
 		if strings.Contains(r, "confirmed-on-real-code") || strings.Contains(r, "no driver") || strings.Contains(r, "outside driver R1") || strings.Contains(r, "closures are not replayed") {
 			return r
 		}
@@ -404,6 +407,9 @@ func tryReplayBound(run *checkRun, o *Obligation, base string, bound uint64) str
 	fn := fr.fn
 	if fn.Pkg == nil || fn.Parent() != nil {
 		return "replay: closures are not replayed by driver R1\n"
+	}
+	if len(fn.Params) == 0 {
+		return "replay: no driver for this obligation (the function takes no inputs; what it does depends on files, environment and flags)\n"
 	}
 	p := &replayPlan{fn: fn, o: o, x: x, fr: fr}
 	for _, prm := range fn.Params {
@@ -461,6 +467,9 @@ func tryReplayBound(run *checkRun, o *Obligation, base string, bound uint64) str
 		}
 	}
 	if vals == nil {
+		if len(lenTerms) == 0 {
+			return "replay: could not obtain concrete model values (quantified query or solver limit) (no length terms)\n"
+		}
 		return "replay: could not obtain concrete model values under the length bound (quantified query or solver limit)\n"
 	}
 	// pin scalars so that the byte queries describe the same model
